@@ -81,4 +81,5 @@ func TestC09(t *testing.T) {
 		rep.Set("create"+fmt.Sprint(names)+"_executions", e.Execs)
 	}
 	c09bRun(rep)
+	c09cFaults(t, rep)
 }
